@@ -2,6 +2,7 @@ import Model
 import Spec
 import Gen
 import Proofs.ConnData
+import Proofs.CloseLock
 /-!
   C14 — CloseNotify fires exactly once when, and only when, the connection is gone.
   `Model.Conn` is the labelled transition system of one connection: transport (fragments, peer
@@ -96,6 +97,41 @@ theorem C14_multistream (d : DictFn) (c : Bool) (es : List CEv) (s : CN)
     simp [CN.step, hn, this] at hs
     subst hs; rfl
   · exact ⟨r, hr1, fun fin fuel => by rw [hr1, hcut r fin fuel]⟩
+
+/-- (a writer stuck in the transport) closing takes no lock (`C14_close_gen`), so in EVERY state
+    reached by any interleaving of a writer, a peer that stops reading and a close request, a
+    close that was asked for and has not happened yet can happen at once: nothing it waits for.
+    The connection therefore does get "gone", and `C14_once` / `C14_only_when_gone` apply. -/
+theorem C14_close_never_waits (es : List CLEv) (s : CLState) (_h : CLState.run false {} es = some s)
+    (hr : s.closeRequested = true) (hc : s.closed = false) :
+    ∃ s', s.step false .closeDo = some s' ∧ s'.closed = true :=
+  CL_close_enabled s hr hc
+
+/-- and once the transport is closed, a write that was stuck in it cannot complete, fails, and
+    leaves the write mutex free -/
+theorem C14_stuck_writer_released (s : CLState) (hw : s.writer = .inTransport) (hc : s.closed = true) :
+    s.step false .xferDone = none ∧
+    ∃ s', s.step false .writeFails = some s' ∧ s'.writer = .failed ∧ s'.lockHeld = false :=
+  CL_writer_released s hw hc
+
+/-- the variant in which closing first takes the write mutex: a writer enters the transport, the
+    peer stops reading, Close is called - and no event other than "the peer stops reading" (which
+    changes nothing) is enabled ever again: the connection is never closed, the notification
+    never fires, the writer never returns -/
+theorem C14_close_behind_write_lock_counterexample :
+    ∃ s, CLState.run true {} [.write, .acquire, .peerStops, .closeCall] = some s ∧
+      s.closeRequested = true ∧ s.closed = false ∧ s.writer = .inTransport ∧
+      ∀ e ∈ CLEv.all, s.step true e = none ∨ s.step true e = some s :=
+  ⟨_, rfl, rfl, rfl, rfl, by decide⟩
+
+/-- regenerated from server.go: `response.Close` and the deferred function of `conn.serve` reach
+    `rwc.Close()` without acquiring any mutex on the way (calls into functions of the same file
+    followed) -/
+theorem C14_close_gen : Gen.closePaths = [("response.Close", [], true), ("conn.serve.defer1", [], true)] := by decide
+
+/-- non-vacuity: the same schedule with the source's parameter ends closed, writer failed, mutex free -/
+example : ((CLState.run false {} [.write, .acquire, .peerStops, .closeCall, .closeDo, .writeFails]).map
+    (fun s => (s.closed, s.writer, s.lockHeld))) = some (true, .failed, false) := by decide
 
 /-- structural facts the model stands on, regenerated from server.go: the reader loop's deferred
     exit path closes the transport and notifies; the handler is called synchronously -/
